@@ -53,11 +53,12 @@ type c01issThread struct {
 	NoChk    bool   `json:"nochk,omitempty"`
 	Force    bool   `json:"force,omitempty"`
 	IssDue   bool   `json:"issdue,omitempty"`
-	Interval bool   `json:"interval,omitempty"` // clean: opts.Interval > 0
-	Newer    bool   `json:"newer,omitempty"`    // ari: storage holds newer renewal info
-	Cb       bool   `json:"cb,omitempty"`       // acct: NewAccountFunc configured
-	Email    string `json:"email,omitempty"`    // acct: account e-mail address
-	Store    int    `json:"store,omitempty"`    // index of the storage this instance uses (cases with several separate storages in one process)
+	Interval bool   `json:"interval,omitempty"`              // clean: opts.Interval > 0
+	Newer    bool   `json:"newer,omitempty"`                 // ari: storage holds newer renewal info
+	Cb       bool   `json:"cb,omitempty"`                    // acct: NewAccountFunc configured
+	Email    string `json:"email,omitempty"`                 // acct: account e-mail address
+	Store    int    `json:"store,omitempty"`                 // index of the storage this instance uses (cases with several separate storages in one process)
+	Decliner bool   `json:"first_issuer_declines,omitempty"` // Issuers = [an issuer that always declines, the shared issuer double]
 }
 
 type c01issSeed struct {
@@ -283,6 +284,14 @@ func (i *c01issIssuer) GetRenewalInfo(ctx context.Context, cert certmagic.Certif
 	return ri, nil
 }
 
+// c01Decliner: an issuer that refuses every order (no gate, no trace)
+type c01Decliner struct{}
+
+func (c01Decliner) IssuerKey() string { return "decl" }
+func (c01Decliner) Issue(context.Context, *x509.CertificateRequest) (*certmagic.IssuedCertificate, error) {
+	return nil, errors.New("this issuer declines the order")
+}
+
 var _ certmagic.Issuer = (*c01issIssuer)(nil)
 var _ certmagic.RenewalInfoGetter = (*c01issIssuer)(nil)
 
@@ -392,7 +401,14 @@ func (e *c01issEnv) setupThread(i int, sp c01issThread) (*c01issRT, error) {
 		tmpl.OnDemand = &certmagic.OnDemandConfig{DecisionFunc: func(context.Context, string) error { return nil }}
 		tmpl.DisableARI = true
 	}
-	rt.cfg, rt.cache = doubles.NewConfig(rt.storage, tmpl, certmagic.CacheOptions{}, iss)
+	if sp.Decliner {
+		// a config whose preferred issuer declines and which falls through to the shared one (issuer lists being
+		// re-ordered / extended during a roll-out). Its look-ups under the declining issuer's key find nothing and are
+		// let through ungated (hook); in the model the declining issuer is a no-op prefix of the single-issuer program.
+		rt.cfg, rt.cache = doubles.NewConfig(rt.storage, tmpl, certmagic.CacheOptions{}, c01Decliner{}, iss)
+	} else {
+		rt.cfg, rt.cache = doubles.NewConfig(rt.storage, tmpl, certmagic.CacheOptions{}, iss)
+	}
 	rt.ctx, rt.cancel = context.WithCancel(context.Background())
 	rt.eff = sp.Name
 	progCode, flag := 0, c01B2i(sp.Async)
@@ -573,6 +589,9 @@ func (e *c01issEnv) hook(op *doubles.Op) error {
 		// the start of GetCertificate: not part of the model, let through ungated
 		return nil
 	}
+	if e.threads[tid].spec.Decliner && strings.Contains(op.Key, "/decl/") {
+		return nil // look-ups under the declining first issuer's key: nothing there, not part of the model
+	}
 	a := &c01issArrival{tid: tid, op: *op, reply: make(chan int, 1)}
 	e.arrivals <- a
 	f := <-a.reply
@@ -746,7 +765,7 @@ func (e *c01issEnv) faultFor(rt *c01issRT, a *c01issArrival) int {
 			f = v
 		}
 	}
-	if rt.spec.Prog == "handshake" {
+	if rt.spec.Prog == "handshake" || rt.spec.Decliner {
 		return c01fNone // see setupThread: modelled without faults of its own
 	}
 	// budget: a retry loop that would never end is cancelled
